@@ -52,12 +52,31 @@ def gen_harnesses(tier, seed):
     U = 10 if tier == "quick" else 60
     for i in range(U):
         b, other = rng.choice((("int", "str"), ("str", "int"), ("int", "list")))
-        methods = [dict(kind="depunion", bound=b, other=other, pred=pred(b), prio=0), dict(kind="static", bound="object", prio=-1)]
+        methods = [dict(kind="depunion", bound=b, other=other, pred=pred(b), prio=0, double=(i % 3 == 2)), dict(kind="static", bound="object", prio=-1)]
         if rng.random() < 0.5:
             methods.append(dict(kind="static", bound=b, prio=-1 if rng.random() < 0.5 else 0))
         checks = [("int", "int", None), ("str", "str", "len(x) <= 2")]
         src = gen.one_position_module(methods, [0, 1, 2, 11, 12, -3, 7, True, "a", "ab", "", [1], []], checks)
         out.append((f"c10_union_{i}", src, dict(family="dependent type inside a union", methods=methods)))
+    # two unrelated static methods (abstract classes that both cover the value) below a dependent method: when the condition does not hold,
+    # dispatch continues as if the dependent method were absent -- here: with the ambiguity error
+    A = 6 if tier == "quick" else 30
+    for i in range(A):
+        b = ("int", "int", "bool")[i % 3]
+        methods = [dict(kind="dep", bound=b, pred=pred(b), prio=0), dict(kind="static", bound="Integral", prio=0),
+                   dict(kind="static", bound="Hashable", prio=0), dict(kind="static", bound="object", prio=-1)]
+        if i % 2:
+            methods.insert(1, dict(kind="dep", bound="int", pred=pred("int"), prio=1))
+        checks = [("int", "int", None), ("bool", "bool", None), ("str", "str", "len(x) <= 2")]
+        src = gen.one_position_module(methods, [0, 1, 2, 11, 12, -3, 7, True, False, "a", "ab", ""], checks,
+                                      prelude="from numbers import Integral\nfrom collections.abc import Hashable")
+        out.append((f"c10_ambstatic_{i}", src, dict(family="ambiguous static methods below a dependent one", methods=methods)))
+    G = 8 if tier == "quick" else 40
+    for i in range(G):
+        a = rng.randint(-3, 10)
+        p1 = rng.choice(INT_PREDS).format(a=a, b=a + 3)
+        src = gen.mixed_group_module(p1, prio_dep=i % 2, mirrored=(i // 2) % 2 == 1)
+        out.append((f"c10_mixed_{i}", src, dict(family="static and dependent method unordered in one rank (two positions)", p=p1)))
     M = 16 if tier == "quick" else 120
     for i in range(M):
         a, b = rng.randint(-3, 10), rng.randint(-3, 10)
